@@ -335,6 +335,19 @@ def cross_matrix(ctx, o_x, first_only=False):
             except Exception as e:  # noqa: BLE001
                 obs = errname(e) + ": " + str(e)[:100]
             chk(name + ":salt-of-other-cost", obs == (True, True, True, False), dict(inp, hash=locals().get("hs")), obs, (True, True, True, False))
+        # the bcrypt package takes a whole bcrypt string where a salt is expected (it reads the first 29 characters): whatever the hasher
+        # accepts as `salt=` must give a string that verifies
+        secret = rand_secret(rng).replace(b"\x00", b"\x01")[:40]
+        full = bcrypt_pkg.hashpw(b"another password", bcrypt_pkg.gensalt(rounds=4))
+        inp = {"op": "hash-as-salt", "format": name, "salt": full.decode(), "secret": secret.hex()}
+        try:
+            hs = mk(4).hash(secret, salt=full)
+            obs = (mk(4).verify(hs, secret), cl.verify(secret, hs), mk(4).verify(hs, secret + b"x"))
+        except ValueError as e:
+            obs = "refused: " + str(e)[:60]           # refusing the argument is fine; a string that does not verify is not
+        except Exception as e:  # noqa: BLE001
+            obs = errname(e) + ": " + str(e)[:100]
+        chk(name + ":hash-as-salt", obs == (True, True, False) or (isinstance(obs, str) and obs.startswith("refused")), dict(inp, hash=locals().get("hs")), obs, (True, True, False))
     # ---- strings next to a hash (a stored line that was not stripped, a cut or extended field): libpass may accept one only if passlib does
     for name, mk, cl, rs, mksalt in pairs:
         r = rs[0]
@@ -440,6 +453,18 @@ def replay(ctx, inp):
             return {"fails": r is not False, "observed": r}
         except Exception as e:  # noqa: BLE001
             return {"fails": True, "observed": errname(e)}
+    if op == "hash-as-salt":
+        import bcrypt as bcrypt_pkg
+        from libpass.hashers.bcrypt import BcryptHasher, BcryptSHA256Hasher
+
+        hh = (BcryptSHA256Hasher if inp["format"] == "bcrypt-sha256" else BcryptHasher)(rounds=4)
+        secret = bytes.fromhex(inp["secret"])
+        try:
+            hs = hh.hash(secret, salt=inp["salt"].encode())
+        except ValueError as e:
+            return {"fails": False, "observed": "refused: " + str(e)[:80]}
+        v = hh.verify(hs, secret)
+        return {"fails": v is not True, "observed": {"hash": hs, "verify": v}}
     if op == "lp-sha512-prefix":
         from libpass.hashers.sha_crypt import SHA512Hasher
 
